@@ -63,7 +63,7 @@ def fingerprint(obj, w=None):
     user = None
     if w is not None:
         user = ("unset" if w.ps is UNSET else None if w.ps is None else
-                ps_key(w.ps), repr(w.par.get()))
+                ps_key(w.ps), repr(w.par.get()), tuple(sorted(w.src.items())))
     return kernel.fp8((canon(vars(obj)), user))
 
 
@@ -127,6 +127,7 @@ class World:
         g = lw.Circuit(2); g.bs(0, reflectivity=env.R2); g.ps(1, env.PH[0]); g.bs(0, reflectivity=env.R[1], convention="H")   # no herald at all
         self.circ = {"a": a, "b": b, "c": c, "p": p, "d": d, "e": e, "f": f, "g": g}
         self.ps = UNSET        # the post-selection object the USER last handed over (and may keep editing)
+        self.src = {"brightness": 1, "purity": 1, "indistinguishability": 1}    # the source the USER last configured
         # "bad": right length, invalid occupation - the assignment must be refused and change nothing
         self.inputs = {"10": lw.State([1, 0]), "01": lw.State([0, 1]), "11": lw.State([1, 1]), "bad": lw.State([True, False])}
 
@@ -174,8 +175,13 @@ def sampler_apply(s, w, op):
     if k == "circuit": s.circuit = w.circ[op[1]]
     elif k == "param": w.par.set(op[1])
     elif k == "input": s.input_state = w.inputs[op[1]]
-    elif k == "source": s.source = mk_source(op[1], w.env)
-    elif k == "src_inplace": setattr(s.source, op[1], op[2])
+    elif k == "source":
+        s.source = mk_source(op[1], w.env)       # "ideal" assigns None: documented as "a perfect source"
+        w.src = {"brightness": w.env.R2 if op[1] == "dim" else 1, "purity": 1,
+                 "indistinguishability": w.env.L2 if op[1] == "ind" else 1}
+    elif k == "src_inplace":
+        setattr(s.source, op[1], op[2])
+        w.src[op[1]] = op[2]
     elif k == "backend": s.backend = op[1]
     elif k == "read": s.probability_distribution
     elif k == "draw":            # every sampling path once (each may refuse on its own)
@@ -231,8 +237,9 @@ def law_obs_b(build, fn, acc):
 
 def sampler_fresh(s, w):
     def build():
-        src = emu.Source(brightness=s.source.brightness, purity=s.source.purity,
-                         indistinguishability=s.source.indistinguishability,
+        # the source as the user configured it (not as the live object reports it)
+        src = emu.Source(brightness=w.src["brightness"], purity=w.src["purity"],
+                         indistinguishability=w.src["indistinguishability"],
                          probability_threshold=s.source.probability_threshold)
         det = emu.Detector(efficiency=s.detector.efficiency, p_dark=s.detector.p_dark,
                            photon_counting=s.detector.photon_counting)
@@ -243,7 +250,8 @@ def sampler_fresh(s, w):
 def sampler_config(s, w=None):
     return kernel.fp8((full_fingerprint(s.circuit), tuple(s.input_state.s), s.backend.backend,
                        s.detector.efficiency, s.detector.p_dark, s.detector.photon_counting,
-                       s.source.brightness, s.source.purity, s.source.indistinguishability))
+                       s.source.brightness, s.source.purity, s.source.indistinguishability,
+                       tuple(sorted(w.src.items())) if w is not None else None))
 
 
 # ---------------- QuickSampler
